@@ -1088,9 +1088,18 @@ func (i *interpreter) structFieldIndex(pkg, typ, field string) int {
 	panic(unsupported("no field " + field + " in " + pkg + "." + typ))
 }
 
-// sync.Pool: single-threaded paths: Get always allocates through New, Put drops.
+// sync.Pool: a path is single-threaded; the model is the behaviour that is
+// most adverse to code that keeps using an object after Put: Get hands back
+// the most recently Put object (LIFO, as the per-P private slot of the real
+// pool does in one goroutine) and only calls New when the pool is empty.
 func ext۰sync۰Pool۰Get(fr *frame, args []value) value {
-	pool := (*args[0].(*value)).(structure)
+	key := args[0].(*value)
+	if items := fr.i.ps.pools[key]; len(items) > 0 {
+		x := items[len(items)-1]
+		fr.i.ps.pools[key] = items[:len(items)-1]
+		return x
+	}
+	pool := (*key).(structure)
 	newFn := pool[fr.i.structFieldIndex("sync", "Pool", "New")]
 	switch f := newFn.(type) {
 	case *ssa.Function:
@@ -1101,6 +1110,15 @@ func ext۰sync۰Pool۰Get(fr *frame, args []value) value {
 		return iface{}
 	}
 	return call(fr.i, fr, token.NoPos, newFn, nil)
+}
+
+func ext۰sync۰Pool۰Put(fr *frame, args []value) value {
+	key := args[0].(*value)
+	if fr.i.ps.pools == nil {
+		fr.i.ps.pools = map[*value][]value{}
+	}
+	fr.i.ps.pools[key] = append(fr.i.ps.pools[key], args[1])
+	return nil
 }
 
 // ---------------------------------------------------------------------
@@ -1759,7 +1777,7 @@ func registerModels() {
 		"(*sync.Map).Store":                        ext۰sync۰Map۰Store,
 		"(*sync.Map).LoadOrStore":                  ext۰sync۰Map۰LoadOrStore,
 		"(*sync.Pool).Get":                         ext۰sync۰Pool۰Get,
-		"(*sync.Pool).Put":                         func(fr *frame, args []value) value { return nil },
+		"(*sync.Pool).Put":                         ext۰sync۰Pool۰Put,
 		"(*sync.WaitGroup).Add":                    func(fr *frame, args []value) value { return nil },
 		"(*sync.WaitGroup).Done":                   func(fr *frame, args []value) value { return nil },
 		"(*sync.WaitGroup).Wait":                   func(fr *frame, args []value) value { return nil },
